@@ -9,3 +9,4 @@ CONSTANTS
   FAULTS = 2
   FLAGFIRST = TRUE
   DELAYMS = 120
+  SKIPREDUNDANT = FALSE
